@@ -19,6 +19,7 @@ verus! {
 //@include types2.rs
 //@type src/ruleset/mod.rs struct Outcome
 //@type src/ruleset/builder.rs struct Builder
+//@type src/value/ser.rs struct ValueSerializer
 //@type src/expr/keywords.rs const KEYWORDS
 //@include standins_fn.rs
 //@include sem_expr.rs
@@ -35,6 +36,7 @@ use super::*;
 //@fn Rule::expr
 //@fn Rule::name
 //@fn RuleSet::evaluate_value
+//@fn RuleSet::evaluate
 //@fn RuleSet::call_function
 //@fn RuleSet::get_symbol
 //@fn UserFunctions::get
